@@ -637,11 +637,12 @@ let parse_certs (s : Stdlib.String.t) : cert list =
        | x -> failwith ("bad cert " ^ x)) in
   go []
 let run_tv = function
-  | [w; fuse; ir; bc; cert] ->
+  | [w; fuse; ir; bc; zeros; cert] ->
     let blk = parse_block (toks_of ir) in
     let p = parse_bc (toks_of bc) in
     let cs = parse_certs cert in
-    if tv_check (zs w) (fuse = "1") blk p.bp_code cs then "ok" else "reject"
+    let z0 = List.map zs (List.filter (fun x -> x <> "") (split_on ' ' zeros)) in
+    if tv_check (zs w) (fuse = "1") blk p.bp_code z0 cs then "ok" else "reject"
   | _ -> "ERR bad tv line"
 
 let run_bcwf = function
